@@ -827,7 +827,7 @@ def _mk_try(x):
     if x[0] == "call" and x[1] in ("Ok", "Some") and len(x[2]) == 1:
         return x[2][0]
     if x[0] == "if" and (_tail_ok(x[2]) or _tail_ok(x[3])):
-        return ("if", x[1], _mk_try(x[2]), _mk_try(x[3]))
+        return _mk_if_raw(x[1], _mk_try(x[2]), _mk_try(x[3]))
     if x[0] == "call" and x[1] == "Err" and len(x[2]) == 1:
         return ("ret", x)            # Err(e)?  leaves the function with the error (up to the error conversion)
     if x[0] == "match" and all(g is None for _p, g, _b in x[2]) and any(_tail_ok(b) or (b[0] == "call" and b[1] == "Err" and len(b[2]) == 1) for _p, _g, b in x[2]):
@@ -932,6 +932,16 @@ def _mk_if_raw(c, t, e):
             return _mk_if_raw(nc, e, t)         # if !a && !b { t } else { e }  ==  if a || b { e } else { t }
     if c[0] == "op" and c[1] == "!=" and len(c[2]) == 2 and not _diverges(t) and not _diverges(e):
         return _mk_if_raw(("op", "==", c[2]), e, t)
+    if c[0] == "iflet" and c[1] in ("v1::Some($)", "Option::Some($)") and e[0] == "ret" and not _diverges(t):
+        # if let Some(v) = X { f(v) } else { return Err(e) }   ==   f(X.ok_or(e)?)        (likewise `else { return None }` and `X?`)
+        payload = ("proj", c[2], c[1].split("(")[0], "0")
+        tr = None
+        if e[1][0] == "call" and e[1][1] == "Err" and len(e[1][2]) == 1:
+            tr = ("try", ("call", "ok_or", [c[2], e[1][2][0]]))
+        elif e[1] == ("def", "v1::None"):
+            tr = ("try", c[2])
+        if tr is not None and any(x == payload for x in subterms(t)):
+            return rewrite(t, lambda n: tr if n == payload else None)
     if _diverges(e) and not _diverges(t) and not _is_unit(t):
         return ("early", [(_not(c), e)], t)          # `if c { v } else { return .. }` is a guard clause followed by v
     if _diverges(t) and not _diverges(e) and not _is_unit(e):
@@ -2979,6 +2989,16 @@ def _mk_iflet(pat, scr, then, els):
     if pat in ("v1::Some($)", "Option::Some($)") and then[0] == "call" and then[1] == "Ok" and len(then[2]) == 1 \
             and _show(then[2][0]) == _show(("proj", scr, pat.split("(")[0], "0")) and els[0] == "call" and els[1] == "Err" and len(els[2]) == 1:
         return ("call", "ok_or", [scr, els[2][0]])
+    if pat in ("v1::Some($)", "Option::Some($)") and els[0] == "ret" and not _diverges(then):
+        # if let Some(v) = X { f(v) } else { return Err(e) }   ==   f(X.ok_or(e)?)        (likewise `else { return None }` and `X?`)
+        payload = ("proj", scr, pat.split("(")[0], "0")
+        tr = None
+        if els[1][0] == "call" and els[1][1] == "Err" and len(els[1][2]) == 1:
+            tr = ("try", ("call", "ok_or", [scr, els[1][2][0]]))
+        elif els[1] == ("def", "v1::None"):
+            tr = ("try", scr)
+        if tr is not None and any(x == payload for x in subterms(then)):
+            return rewrite(then, lambda n: tr if n == payload else None)
     if _diverges(then) and _is_unit(els):
         return ("early", [(_let(pat, scr), then)], ("lit", "()"))
     if pat in ("v1::Some($)", "Option::Some($)") and scr[0] == "match" and all(g is None for _p, g, _b in scr[2]) \
